@@ -657,6 +657,13 @@ class PyExec:
             if isinstance(a, PRef) and isinstance(b, PRef):
                 r = a.addr == b.addr
                 return r if isinstance(op, ast.Is) else z3.Not(r)
+            if (isinstance(a, POpt) and isinstance(b, (PRef, POpt))) or (isinstance(b, POpt) and isinstance(a, PRef)):
+                # an optional reference is identical to an object iff it is not None and holds that object's address
+                def parts(v):
+                    return (v.is_none, v.ref.addr) if isinstance(v, POpt) else (z3.BoolVal(False), v.addr)
+                (na, xa), (nb, xb) = parts(a), parts(b)
+                r = z3.Or(z3.And(na, nb), z3.And(z3.Not(na), z3.Not(nb), xa == xb))
+                return r if isinstance(op, ast.Is) else z3.Not(r)
             if isinstance(a, PAny) and isinstance(b, PAny):
                 r = a.t == b.t          # abstract identities
                 return r if isinstance(op, ast.Is) else z3.Not(r)
